@@ -16,9 +16,10 @@ REQUIRED_THEOREMS = ["Gv.Props.C14." + n for n in [
     "countDifferences_counts_eq_spec", "numGapsUnique_eq_spec", "numMutationsUnique_eq_spec",
     "equalOrCompatible_is_shared_base", "nt2IndexIUPAC_defined_iff", "numMutationsVsRef_eq_spec",
     "listMutationsVsRef_eq_spec", "wildcard_or_compatible_is_no_substitution", "entropy_eq_spec",
-    # the codon-wise list (--aa): error exactly as the code, every entry justified by a reference codon / gap triple
+    # the codon-wise list (--aa): error exactly as the code, every entry justified by a reference codon / gap triple,
+    # and model = naive definition (Spec.aaMutations) on every input (completeness)
     "standard_code_defined", "listMutationsVsRefAA_error_iff", "listMutationsVsRefAA_defined_iff_spec",
-    "listMutationsVsRefAA_entries_justified", "aaEntry_reports_a_difference",
+    "listMutationsVsRefAA_entries_justified", "aaEntry_reports_a_difference", "listMutationsVsRefAA_eq_spec",
     # MaxCharStats / Consensus on the actual count entries of a column (first-appearance order = some map order)
     "countUpper_eq_tally", "countUpper_keys_nodup", "countUpper_lookup", "countUpper_pos",
     "maxCharSite_order_independent", "maxCharSite_is_argmax",
@@ -35,7 +36,8 @@ LEVEL_TEXT = ("Lean theorems: MaxCharStats' selection loop returns the same resu
               "count entries of a column (distinct keys, naive counts, positive); every counting "
               "statistic's model (the Go loops with their accumulators, early exits and counter slices: CharStats, UniqueCharacters, "
               "CharStatsSeq/Site, NbVariableSites, InformativeSites, the two counters of AvgAllelesPerSite, CountDifferences, unique "
-              "gaps / mutations per sequence, number and list of mutations vs a reference incl. IUPAC compatibility on base sets) is "
+              "gaps / mutations per sequence, number and list of mutations vs a reference incl. IUPAC compatibility on base sets, and the "
+              "codon-wise list --aa: listMutationsVsRefAA_eq_spec) is "
               "proved equal to its naive definition in Spec/Stats.lean for ALL inputs, index errors exactly outside [0,n) / [0,L); "
               "the same for the three counter slices (unique / new / both) of the unique gap / mutation counters with a count "
               "profile (length-check error, index panic and the naive recounts: numGapsUniqueProf_eq_spec, "
@@ -52,12 +54,7 @@ TECHNIQUE = "Lean 4 proof (order-independence for all permutations, list inducti
 RULE = ("alignments of 1..6 rows x 1..6 columns over small alphabets with ties for the most frequent character, all-gap and all-N "
         "columns, mixed case, specials; all site indices in [-1, L]; both ignore options; every map-ordered call repeated 200 "
         "times; non-trivial = a column with a tie or a boundary index")
-PARTIAL = ["codon-wise mutation list (--aa): proved are the error condition (= the code's, = the definition's) and that every "
-           "listed entry is justified (window of a reference codon or of three reference gaps, position = reference residues to the "
-           "left / 3, reference amino acid = translation of the codon, alternative = translation of the query residues, not the "
-           "reference amino acid alone); that every differing codon IS listed (model = Spec.aaMutations) is not proved: it is "
-           "checked on every generated pair by the oracle, which evaluates Spec.aaMutations against the implementation's answer",
-           "Entropy: the occurrence counts, the summation order and the error/NaN cases are proved (entropy_eq_spec); the float sum itself "
+PARTIAL = ["Entropy: the occurrence counts, the summation order and the error/NaN cases are proved (entropy_eq_spec); the float sum itself "
            "(math.Log) is compared with tolerance 1e-12, rounding is not modelled; AvgAllelesPerSite: the two integer counters are "
            "proved, the float64 quotient is compared with tolerance",
            "Pssm: theorems are over the reals (Props/C14Pssm.lean); float rounding and the last place of math.Log are not modelled: "
@@ -74,6 +71,10 @@ PARTIAL = ["codon-wise mutation list (--aa): proved are the error condition (= t
            "model printed with a model of strconv's '%.3f' (exact binary value, ties to even, NaN / +Inf / -Inf, signed zero): "
            "byte for byte without logarithms, and with --log / the logo a cell may be the printed form of a value within 1e-12 "
            "(relative) of the model's (last place of math.Log); pseudo-counts a float64 does not hold exactly are not decided",
+           "command line `stats --per-sequences`, `stats gaps --count-profile`, `stats mutations --count-profile` "
+           "(Oracle/CliStatsSeq.lean): the bytes of the built binary = the library models + a model of the count-profile file "
+           "reader; not modelled (no claim): a profile header naming a character twice or a byte >= 128, counts of more than "
+           "18 digits, CRLF line ends, gzip-compressed or stdin profiles",
            "the model is stated for ASCII residues: CharStats / InformativeSites index 130-entry slices with unicode.ToUpper(rune) "
            "(bytes >= 130 panic in Go; only NumMutationsUniquePerSequence models that panic explicitly)",
            "CountDifferences on an alignment without sequences and CountProfile.CountsAt(len) were run-time panics: repaired "
@@ -367,6 +368,8 @@ def gen(rng, tier):
     for c in cligen.cases(rng, ['consensus', 'entropy', 'stats', 'gapstats', 'mutstats', 'charstats', 'alleles', 'alphabet', 'pssm', 'summary'], 40 if tier == "quick" else 400):
         yield c
     for c in cligen.cases(rng, ['mutlist', 'mutcount'], 30 if tier == "quick" else 600):
+        yield c
+    for c in cligen.cases(rng, ['perseq', 'gapsprof', 'mutsprof'], 40 if tier == "quick" else 800):
         yield c
     for _ in range(2 if tier == "quick" else 20):
         for argv in MULTI_CMDS:
